@@ -1,4 +1,5 @@
-SPECIFICATION Spec
+INIT InitMC
+NEXT Next
 INVARIANT InvOwned
 INVARIANT InvClosable
 INVARIANT InvPreSound
